@@ -22,6 +22,7 @@ def canon(x):
 
 
 FINDERS = {}
+LIVE = {}
 
 
 def finder_of(name):
@@ -31,7 +32,11 @@ def finder_of(name):
         return FindInList(list(CTX["leaves"]), do_extrapolate=True)       # (not kept: a new one per call)
     if name in FINDERS:
         return FINDERS[name]
-    if name == "list":
+    if name == "list_live":
+        # the client keeps its list and appends to it: the Finder was given that very list ("data did change -> the later call reflects it")
+        LIVE.setdefault("list", list(CTX["list"]))
+        f = FindInList(LIVE["list"])
+    elif name == "list":
         f = FindInList(list(CTX["list"]))
     elif name.startswith("paths:"):
         f = FindInPaths(name.split(":", 1)[1])
@@ -138,6 +143,11 @@ def exec_call(spec):
             from spil import WriteToPaths
             for c in spec["configs"]:
                 WriteToPaths(c).create(spec["sid"])
+            return True
+        if f == "append_live":
+            finder_of("list_live")
+            if spec["sid"] not in LIVE["list"]:
+                LIVE["list"].append(spec["sid"])
             return True
         if f == "filler":
             # more distinct calls than any cache can hold
